@@ -414,3 +414,16 @@ fn c08_flows_witness() {
     vassert!(s == S::SessionEncrypted, "C08.flow.resumption_reaches_SessionEncrypted");
     vcover!(true, "C08.cover.flows_ran");
 }
+
+/// Vacuity guard (thorough tier): must FAIL.
+#[cfg(feature = "thorough")]
+#[kani::proof]
+#[kani::unwind(4)]
+fn c08_false_twin() {
+    let si: u8 = kani::any();
+    kani::assume(si < N_STATES);
+    let ki: u8 = kani::any();
+    kani::assume(ki <= 6);
+    check_cell(si, ki);
+    vassert!(false, "C08.false_twin");
+}
